@@ -37,6 +37,7 @@ structure Chan where
 inductive Task where
   | flush | transmit | reconfig
   | resend (c : Chunk)                     -- `_send_chunk(t1/t2 chunk)` queued by a timer
+  | resendReconfig (p : Int × Int × Int × List Nat)  -- `_send_reconfig_param(request)` queued by the timer
   deriving Repr, Inhabited
 
 inductive Out where
@@ -75,6 +76,7 @@ structure Ep where
   reconfigRequest : Option (Int × Int × Int × List Nat) := none
   reconfigRequestSeq : Int
   reconfigResponseSeq : Int := 0
+  rcTimer : Bool := false                  -- `_reconfig_handle`
   t1Chunk : Option Chunk := none
   t1Failures : Nat := 0
   t1 : Bool := false
@@ -193,6 +195,14 @@ def t3Cancel : M Unit := do
   if (← getE).tx.t3 then
     emit (.timerCancel "t3")
     modE fun e => { e with tx := { e.tx with t3 := false } }
+def rcCancel : M Unit := do
+  if (← getE).rcTimer then
+    emit (.timerCancel "reconfig")
+    modE fun e => { e with rcTimer := false }
+def rcStart : M Unit := do
+  rcCancel
+  modE fun e => { e with rcTimer := true }
+  emit (.timerStart "reconfig")
 def t1Start (c : Chunk) : M Unit := do
   if (← getE).t1 then crash "AssertionError"
   modE fun e => { e with t1Chunk := some c, t1Failures := 0, t1 := true }
@@ -266,6 +276,7 @@ def transmitReconfig : M Unit := do
     let p := RcParam.resetOut param.1.toNat param.2.1.toNat param.2.2.1.toNat streams
     let b ← liftO p.serialize
     sendChunk (.params .reconfig 0 [(SCTP_STR_RESET_OUT_REQUEST, b)])
+    rcStart
 
 /-- `_data_channel_close(channel)`. -/
 def dcClose (i : Nat) : M Unit := do
@@ -294,10 +305,10 @@ def setState (st : AState) : M Unit := do
     let e ← getE
     for (_, i) in e.dataChannels do
       let c ← chanGet i
-      if c.negotiated && c.ready ≠ 1 then setReady i 1
+      if c.negotiated && c.ready = 0 then setReady i 1
     queueTask .flush "data_channel_flush"
   else if st = .closed then
-    t1Cancel; t2Cancel; t3Cancel
+    t1Cancel; t2Cancel; t3Cancel; rcCancel
     modE fun e => { e with state := "closed" }
     let e ← getE
     for (sid, _) in e.dataChannels do dcClosed sid
@@ -338,14 +349,14 @@ def dcReceive (sid ppid : Nat) (data : Bytes) : M Unit := do
   if ppid = WEBRTC_DCEP && !data.isEmpty then
     let msgType := data.headD 0
     if msgType = DATA_CHANNEL_OPEN && data.length ≥ 12 then
-      if (dictGet e.dataChannels sid).isSome then crash "AssertionError"
+      if (dictGet e.dataChannels sid).isSome then return
       let channelType := data.getD 1 0
       let reliability := beVal ((data.drop 4).take 4)
       let ll := beVal ((data.drop 8).take 2)
       let pl := beVal ((data.drop 10).take 2)
       let label := (data.drop 12).take ll
       let protocol := (data.drop (12 + ll)).take pl
-      if !utf8Valid label || !utf8Valid protocol then crash "UnicodeDecodeError"
+      if !utf8Valid label || !utf8Valid protocol then return
       let c : Chan := {
         id := some sid, label := label, protocol := protocol
         ordered := channelType / 128 % 2 = 0
@@ -356,12 +367,14 @@ def dcReceive (sid ppid : Nat) (data : Bytes) : M Unit := do
       setE { e with chans := e.chans ++ [c], dataChannels := e.dataChannels ++ [(sid, i)]
                     dcQueue := e.dcQueue ++ [(i, WEBRTC_DCEP, [DATA_CHANNEL_ACK])] }
       flush
-      if (← getE).listeners then emit (.evChannel i)
-      let c ← chanGet i
-      chanSet i { c with silent := false }
+      -- without transport listeners (association closed) nobody ever learns about this channel
+      if (← getE).listeners then
+        emit (.evChannel i)
+        let c ← chanGet i
+        chanSet i { c with silent := false }
     else if msgType = DATA_CHANNEL_ACK then
       match dictGet e.dataChannels sid with
-      | none => crash "AssertionError"
+      | none => pure ()
       | some i =>
         let c ← chanGet i
         if c.ready = 0 then setReady i 1
@@ -372,7 +385,7 @@ def dcReceive (sid ppid : Nat) (data : Bytes) : M Unit := do
       let c ← chanGet i
       let live := !c.silent && c.ready ≠ 3
       if ppid = WEBRTC_STRING then
-        if !utf8Valid data then crash "UnicodeDecodeError"
+        if !utf8Valid data then return
         if live then emit (.evMessage i true data)
       else if ppid = WEBRTC_STRING_EMPTY then
         if live then emit (.evMessage i true [])
@@ -441,7 +454,8 @@ def receiveForwardTsn (cum : Int) (streams : List (Nat × Nat)) : M Unit := do
   -- update reassembly
   for (sid, sseq) in streams do
     let s ← getInStream sid
-    let s := { s with seq := uint16_add sseq 1 }
+    let next := uint16_add sseq 1
+    let s := if uint16_gt next s.seq then { s with seq := next } else s
     let (msgs, s') ← liftO s.popMessages
     setInStream sid s'
     deliver msgs
@@ -454,6 +468,10 @@ def sendReconfigResponse (respSeq : Nat) : M Unit := do
 /-- `_receive_reconfig_param`. -/
 def receiveReconfigParam : RcParam → M Unit
   | .resetOut reqSeq _ _ streams => do
+    if (reqSeq : Int) = (← getE).reconfigResponseSeq then
+      -- retransmitted request: repeat the response only
+      sendReconfigResponse reqSeq
+      return
     for sid in streams do
       modE fun e => { e with inStreams := dictDel e.inStreams sid }
       match dictGet (← getE).dataChannels sid with
@@ -473,6 +491,7 @@ def receiveReconfigParam : RcParam → M Unit
           modE fun e => { e with tx := { e.tx with streamSeq := dictDel e.tx.streamSeq sid } }
           dcClosed sid
         modE fun e => { e with reconfigRequest := none }
+        rcCancel
         transmitReconfig
     | none => pure ()
 
@@ -510,9 +529,10 @@ def receiveChunk (cookie : Bytes) (c : Chunk) : M Unit := do
   let e ← getE
   match c with
   | .data flags tsn sid sseq proto ud =>
-    receiveData { tsn := tsn, sid := sid, ssn := sseq, ppid := proto, flags := flags, data := ud }
+    if e.rx.isSome then
+      receiveData { tsn := tsn, sid := sid, ssn := sseq, ppid := proto, flags := flags, data := ud }
   | .sack _ ctsn _ gaps _ => receiveSack ctsn gaps
-  | .forwardTsn _ ctsn streams => receiveForwardTsn ctsn streams
+  | .forwardTsn _ ctsn streams => if e.rx.isSome then receiveForwardTsn ctsn streams
   | .params .heartbeat _ ps => sendChunk (.params .heartbeatAck 0 ps)
   | .params .abort _ _ => setState .closed
   | .shutdown _ _ =>
@@ -600,14 +620,17 @@ def sendSack : M Unit := do
     | [] => acc
     | t :: ts =>
       let pos := ((t - rx.last) % 4294967296).toNat
-      let acc := if gapNext = some t then
-          match acc.reverse with
+      if pos > 65535 then acc                                  -- 16-bit offsets: stop
+      else if gapNext = some t then
+        let acc := match acc.reverse with
           | (a, _) :: r => (r.reverse ++ [(a, pos)])
           | [] => [(pos, pos)]
-        else acc ++ [(pos, pos)]
-      build (some (tsn_plus_one t)) acc ts
+        build (some (tsn_plus_one t)) acc ts
+      else if acc.length = SACK_MAX_ENTRIES then acc
+      else build (some (tsn_plus_one t)) (acc ++ [(pos, pos)]) ts
   let gaps := build none [] sorted
-  sendChunk (.sack 0 rx.last.toNat (max 0 e.rwnd).toNat gaps (rx.dups.map (·.toNat)))
+  sendChunk (.sack 0 rx.last.toNat (max 0 e.rwnd).toNat gaps
+    ((rx.dups.take (SACK_MAX_ENTRIES - gaps.length)).map (·.toNat)))
   modE fun e => { e with rx := some { rx with dups := [] }, sackNeeded := false }
 
 /-- `_handle_data(data)`; `cookie` is the state cookie the real endpoint put into its INIT-ACK
@@ -620,10 +643,9 @@ def handleData (data cookie : Bytes) : M Unit := do
   | .ok (_, _, vtag, chunks) =>
     let e ← getE
     let nInit := (chunks.filter fun c => match c with | .init .init .. => true | _ => false).length
-    let expected ← if nInit > 0 then do
-        if chunks.length ≠ 1 then crash "AssertionError"
-        pure 0
-      else pure e.localTag
+    -- an INIT chunk must not be bundled with other chunks
+    if nInit > 0 && chunks.length ≠ 1 then return
+    let expected := if nInit > 0 then 0 else e.localTag
     if vtag ≠ expected then return
     for c in chunks do receiveChunk cookie c
     if (← getE).sackNeeded then sendSack
@@ -710,6 +732,9 @@ def runTask : M Unit := do
     | .transmit => transmit
     | .reconfig => transmitReconfig
     | .resend c => sendChunk c
+    | .resendReconfig param => do
+      let b ← liftO (RcParam.resetOut param.1.toNat param.2.1.toNat param.2.2.1.toNat param.2.2.2).serialize
+      sendChunk (.params .reconfig 0 [(SCTP_STR_RESET_OUT_REQUEST, b)])
 
 def handle : Input → M Unit
   | .start rp => do
@@ -751,6 +776,15 @@ def handle : Input → M Unit
         modE fun e => { e with t2 := true }
         emit (.timerStart "t2")
       | none => crash "AttributeError"
+  | .fire "reconfig" => do
+    modE fun e => { e with rcTimer := false }
+    let e ← getE
+    match e.reconfigRequest with
+    | some param =>
+      if e.assoc = .established then
+        queueTask (.resendReconfig param) "send_reconfig_param"
+        rcStart
+    | none => pure ()
   | .fire _ => do
     let e ← getE
     setE { e with tx := e.tx.t3Expired (1000 * e.now) }
